@@ -138,6 +138,21 @@ theorem C17_switch_off_wins (ao : AliasOracle) (cfg : OpCfg) (L : List Ev) (id :
     rw [hef.2.1, hin.2.2, hlog]
   · rw [hfd.1, hact, hrng.1]; simp
 
+/-- The kill switch never touches the sampling stream: `enable_recording()` / `disable_recording()` between (or inside)
+operations leave the remaining draws and the number of draws consumed as they are, so the decisions of a seeded history
+continue the seeded sequence across any number of off / on transitions (a recorder that is switched on per request draws
+the 1st, 2nd, 3rd ... value of its seed, not the 1st again and again). -/
+theorem C17_switch_keeps_stream (ao : AliasOracle) (s : St) (b : Bool) :
+    (doSetEnabled s b).draws = s.draws ∧ (doSetEnabled s b).drawn = s.drawn ∧
+    (execRun ao s .enable).1.draws = s.draws ∧ (execRun ao s .disable).1.draws = s.draws ∧
+    (execRun ao s .enable).1.drawn = s.drawn ∧ (execRun ao s .disable).1.drawn = s.drawn := by
+  have h : ∀ b, (doSetEnabled s b).draws = s.draws ∧ (doSetEnabled s b).drawn = s.drawn := by
+    intro b
+    unfold doSetEnabled doDiscard
+    cases b <;> cases hd : PlaybackModel.Source.disableDiscards <;> cases ha : s.active <;>
+      simp [resetActive, addLog]
+  exact ⟨(h b).1, (h b).2, (h true).1, (h false).1, (h true).2, (h false).2⟩
+
 /-- Forcing does not leak into the next run: after any run the flag is clear (C09). -/
 theorem C17_no_leak (ao : AliasOracle) (s : St) (r : Run) (h : s.Idle) : (execRun ao s r).1.forced = false := by
   cases r with
